@@ -946,4 +946,142 @@ def cmdTtl (c : Ctx) (db : Db) (k : Bytes) (kind : TtlKind) : R :=
       | .expiretime => { db := db, reply := .int (d / ns), hint := .intTol 1 }
       | .pexpiretime => { db := db, reply := .int (d / msNs), hint := .intTol 20 }
 
+/-! ## SORT -/
+
+/-- a score as `strconv.ParseFloat` reads it: a finite decimal or an infinity; NaN is flagged apart
+    (comparisons with it order nothing) -/
+inductive SortW where
+  | negInf | fin (d : Dec) | posInf | nan
+
+def sortWeight (b : Bytes) : Option SortW :=
+  match parseDecimal b with
+  | some d => some (.fin d)
+  | none =>
+    if isInfNan b then
+      let u := lowerB (match b with | 43 :: r => r | 45 :: r => r | r => r)
+      if u == sb "nan" then some .nan
+      else if (match b with | 45 :: _ => true | _ => false) then some .negInf else some .posInf
+    else none
+
+def Dec.lt (a b : Dec) : Bool :=
+  let s := max a.scale b.scale
+  decide (a.mant * (10 : Int) ^ (s - a.scale) < b.mant * (10 : Int) ^ (s - b.scale))
+
+def SortW.rank : SortW → Nat
+  | .negInf => 0 | .fin _ => 1 | .posInf => 2 | .nan => 3
+
+def SortW.lt (a b : SortW) : Bool :=
+  match a, b with
+  | .fin x, .fin y => x.lt y
+  | _, _ => decide (a.rank < b.rank)
+
+/-- lexicographic order of byte strings (Go's `<` on strings) -/
+def bytesLt : Bytes → Bytes → Bool
+  | [], [] => false
+  | [], _ :: _ => true
+  | _ :: _, [] => false
+  | x :: xs, y :: ys => if x < y then true else if y < x then false else bytesLt xs ys
+
+structure SortItem where
+  data : Bytes
+  str : Bytes          -- what ALPHA compares
+  w : SortW            -- what the numeric mode compares
+
+/-- the comparison of the repaired `sort`: by score (or by string with ALPHA), equal ones by the element -/
+def sortLess (alpha : Bool) (a b : SortItem) : Bool :=
+  if alpha then
+    if a.str != b.str then bytesLt a.str b.str else bytesLt a.data b.data
+  else
+    if a.w.lt b.w then true else if b.w.lt a.w then false else bytesLt a.data b.data
+
+def replaceStar (pat elem : Bytes) : Option Bytes :=
+  match pat.span (· != 42) with
+  | (_, []) => none                      -- no asterisk
+  | (pre, _ :: post) => some (pre ++ elem ++ post)
+
+/-- the string value of a live key (`getKeyUnlocked` with `VALUE_EXISTS`) -/
+def strValue (c : Ctx) (db : Db) (k : Bytes) : Option Bytes :=
+  match db.live c.now k with
+  | some { val := .str b, .. } => some b
+  | _ => none
+
+def errSortScore : Value := .error (sb "ERR One or more scores can't be converted into double")
+
+/-- elements of the source key: `(elements, is a set)` -/
+def sortSource (c : Ctx) (db : Db) (key : Bytes) : Except Unit (Option (List Bytes × Bool)) :=
+  match db.live c.now key with
+  | none => .ok none
+  | some e => match e.val with
+    | .list l => .ok (some (l, false))
+    | .set m => .ok (some (m, true))
+    | _ => .error ()
+
+/-- what SORT returns (before STORE): `none` = a score is not a number; otherwise the values and how
+    the reply is to be compared -/
+def sortCompute (c : Ctx) (db : Db) (xs : List Bytes) (isSet : Bool) (by_ : Option Bytes)
+    (limit : Option (Int × Int)) (gets : List Bytes) (desc alpha storing : Bool) : Option (List Value × Match) :=
+  let noSort0 := match by_ with | some p => !p.contains 42 | none => false
+  -- stored output of an unordered source is sorted by the elements
+  let forced := noSort0 && isSet && storing
+  let by_ := if forced then none else by_
+  let alpha := if forced then true else alpha
+  let noSort := noSort0 && !forced
+  let items : Option (List SortItem) := xs.mapM fun x =>
+    let src : Option Bytes := match by_ with
+      | none => some x
+      | some p => if noSort then some x else (replaceStar p x).bind fun k => strValue c db k
+    match src with
+    | none => some { data := x, str := sb "0", w := .fin ⟨0, 0⟩ }     -- missing weight key counts as 0
+    | some v =>
+      if alpha || noSort then some { data := x, str := v, w := .fin ⟨0, 0⟩ }
+      else (sortWeight v).map fun w => { data := x, str := v, w := w }
+  items.map fun its =>
+    let hasNan := its.any fun i => match i.w with | .nan => true | _ => false
+    -- stable; `a` may stay before `b` unless `b` is strictly less (ascending) / strictly greater (descending)
+    let sorted := if noSort then its
+      else its.mergeSort fun a b => if desc then !(sortLess alpha a b) else !(sortLess alpha b a)
+    let n : Int := sorted.length
+    let window : List SortItem := match limit with
+      | none => sorted
+      | some (off, cnt) =>
+        let start := if off < 0 then 0 else off
+        let cnt := if cnt < 0 then n else cnt
+        let stop := wrap64 (start + cnt)
+        if start ≥ n then []
+        else
+          let stop := if stop < start then start else if stop ≥ n then n else stop
+          (sorted.drop start.toNat).take (stop - start).toNat
+    let gets' := if gets.isEmpty then [[35]] else gets
+    let out : List Value := window.flatMap fun it => gets'.map fun g =>
+      if g == [35] then Value.bulk it.data
+      else match (replaceStar g it.data).bind fun k => strValue c db k with
+        | some v => Value.bulk v
+        | none => Value.nil
+    (out, if hasNan || (noSort && isSet && limit.isSome) then Match.custom "any"
+          else if noSort && isSet && gets'.length == 1 then Match.unordered else Match.exact)
+
+/-- reply, or the stored list: the destination is replaced, an empty result leaves no key -/
+def sortFinish (db : Db) (store : Option Bytes) (out : List Value) (hint : Match) : R :=
+  match store with
+  | none => { db := db, reply := .array out, hint := hint }
+  | some d =>
+    if out.isEmpty then R.ok (db.del d) (.int 0)
+    else
+      let strs := out.map fun v => match v with | .bulk b => b | _ => []
+      R.ok ((db.del d).put d (.list strs) none) (vInt strs.length)
+
+/-- `SORT key [BY pattern] [LIMIT offset count] [GET pattern …] [ASC|DESC] [ALPHA] [STORE destination]`.
+    A BY pattern without an asterisk means "do not sort": a list keeps its order; a set has none, so
+    its reply is compared as a multiset (not at all when LIMIT cuts it) and what is stored is sorted by
+    the elements, as Redis does. -/
+def cmdSort (c : Ctx) (db : Db) (key : Bytes) (by_ : Option Bytes) (limit : Option (Int × Int))
+    (gets : List Bytes) (desc alpha : Bool) (store : Option Bytes) : R :=
+  match sortSource c db key with
+  | .error _ => R.ok db wrongType
+  | .ok none => sortFinish db store [] .exact
+  | .ok (some (xs, isSet)) =>
+    match sortCompute c db xs isSet by_ limit gets desc alpha store.isSome with
+    | none => R.ok db errSortScore
+    | some (out, hint) => sortFinish db store out hint
+
 end RedisEmu
